@@ -262,6 +262,41 @@ def _perfect_cg_chunk(params, lo, hi):
     return r
 
 
+def many_type_cases():
+    """(W, sizes, demands, k): k rolls of width W cut exactly into two or three pieces of pairwise different sizes (13-20
+    piece types), each piece demanded once or twice: the total length is k*W (2k*W), so k (2k) rolls are necessary, and
+    sufficient by construction; the LP value is that integer too"""
+    out = []
+    for W, cuts in (
+        (44, [(12, 32), (13, 31), (14, 30), (15, 29), (16, 28), (17, 27), (18, 26)]),
+        (45, [(10 + 2 * i, 35 - 2 * i) for i in range(8)]),
+        (44, [(20, 24), (19, 25), (9, 12, 23), (10, 13, 21), (8, 14, 22), (7, 11, 26), (15, 29)]),
+        (29, [(14, 15), (11, 18), (13, 16), (12, 17), (10, 19), (4, 5, 20), (6, 2, 21)]),
+        (60, [(7 + i, 53 - i) for i in range(10)]),
+    ):
+        sizes = [x for c in cuts for x in c]
+        assert len(set(sizes)) == len(sizes) and all(sum(c) == W for c in cuts)
+        for mult in (1, 2):
+            out.append((W, sizes, [mult] * len(sizes), mult * len(cuts)))
+        out.append((W, sorted(sizes), [1] * len(sizes), len(cuts)))  # the same order with the piece types listed smallest first
+    return out
+
+
+def _many_types_chunk(params, lo, hi):
+    cases = many_type_cases()
+    r = new_result()
+    for idx in range(lo, hi):
+        W, sizes, demands, k = cases[idx // 2]
+        if idx % 2 == 0:
+            run_instance(r, list(sizes), W, list(demands), ("solve_cg",), opt=k)
+        elif W <= 45 and max(demands) == 1 and sizes != sorted(sizes):  # solve_bp costs seconds per case here: the three smallest only
+            run_instance(r, list(sizes), W, list(demands), ("solve_bp",), base={"max_iter": 45, "max_nodes": 30}, opt=k)
+        if len(r["violations"]) >= 40 or r["counters"]["hangs"] >= 2 or too_many_hangs():
+            r["capped"] = True
+            break
+    return r
+
+
 def _cs_sparse_chunk(params, lo, hi):
     """three piece sizes in 1..W, demands from {1,3,5}^3: index = size_code * 27 + demand_code (+ offset)"""
     W, off = params[:2]
@@ -403,6 +438,7 @@ def jobs(tier, seed):
             js.append(Job(f"cg_W{W}_m3_demands135_block{b}of{nb}", hi - lo, _cs_sparse_chunk, (W, lo), describe=f"rotating 1/{nb} block (VERIF_SEED) of: three sizes in 1..W, demands from {{1,3,5}}^3"))
     js.append(Job("wide_rolls", len(wide_cases(tier == "thorough")), _wide_chunk, tier == "thorough", chunk=4, describe="roll widths 1500, 2000 (thorough: also 1501, 1503) with two piece sizes within 2 of a third of the width, demands over {1,2,3,6}^2; solve_cg and solve_bp (pricing on rolls wider than 1000 units)"))
     js.append(Job("width_sweeps_in_one_process", len(sweep_cases()), _sweep_chunk, None, chunk=1, describe="one order (two piece sizes in 1..7) solved for every roll width up to 12 and back, consecutively in one process; each answer judged on its own"))
+    js.append(Job("perfect_rolls_13_to_20_piece_types", len(many_type_cases()) * 2, _many_types_chunk, None, chunk=1, describe="5-10 rolls of width 29-60 cut exactly into two or three pieces of pairwise different sizes (13-20 piece types), each demanded once or twice: the minimum is the number of rolls cut (volume bound, tight by construction); solve_cg and solve_bp (max_iter 45, max_nodes 30)"))
     npf = len(perfect_cases())
     js.append(Job("cg_two_perfect_rolls_W16", npf, _perfect_cg_chunk, None, describe="solve_cg on the pieces of two rolls of width 16 cut into 3-4 pieces each, unit demands (degenerate column-generation steps: the master LP value stalls before the last useful column)"))
     if tier == "thorough":
